@@ -876,6 +876,23 @@ void vf_search(const vf::Args& a)
 						nt++;
 					vf::stats().cls(i1 <= i0 ? "pfor.empty_range" : nth > i1 - i0 ? "pfor.more_threads_than_indices" : "pfor.strided");
 				}
+		// the same grid for three start values with the FIRST index of the last-started thread slow (300 us): "returns only when all
+		// invocations are done" must not depend on the last thread happening to be quick
+		uint64_t ns = 0;
+		for (int i0 : {-3, 0, 17})
+			for (int i1 = i0 + 1; i1 <= 40; i1++)
+				for (int nth = 2; nth <= 12; nth++, idx++) {
+					if ((int)(idx % (uint64_t)a.workers) != a.worker)
+						continue;
+					int started = nth < i1 - i0 ? nth : i1 - i0;
+					vf::Case c;
+					c.add(vf::Op("pfor", {i0, i1, nth, i0 + started - 1}));
+					if (!vf::runner().run("pfor", c))
+						return;
+					ns++;
+					nt++;
+				}
+		vf::stats().cls("pfor.grid_with_slow_last_thread", ns);
 		vf::stats().nt_counted(nt);
 		vf::stats().part("pfor.grid[-3,40]^2x[1,12]", n, true);
 		vf::stats().sample("pfor -3 40 12 (and every other (i0,i1,n) of the grid)");
